@@ -354,6 +354,12 @@ class SB:
     def logical_not(self):
         return SB(z3.Not(self.b))
 
+    def any(self, *a, **k):     # np.bool_ protocol
+        return self
+
+    def all(self, *a, **k):
+        return self
+
     def astype(self, t):
         if t in (bool, np.bool_, "bool"):
             return self
